@@ -52,7 +52,8 @@ def cases(draw, max_n=40):
         # with fill, gaps of a few buckets make a filled timeframe hold MORE candles than the base list
         t += step if not fill else draw(st.sampled_from((step, step, step, 4 * step, 9 * step)))
     preload = min(n, draw(st.sampled_from((0, 0, 1, n // 2, n))))
-    return {"members": members, "stream": stream, "fill": fill, "preload": preload, "chunks": draw(gs.chunking(n - preload))}
+    lifespan = draw(st.sampled_from((None, None, None, 5 * step, 12 * step)))
+    return {"members": members, "stream": stream, "fill": fill, "lifespan": lifespan, "preload": preload, "chunks": draw(gs.chunking(n - preload))}
 
 
 def run_case(case) -> Result:
@@ -66,11 +67,20 @@ def run_case(case) -> Result:
         inds = [build_indicator(m["cfg"], **({"timeframe": m["tf"]} if m["tf"] else {})) for m in case["members"]]
         if len({i.name for i in inds}) != len(inds):
             return Result([], False, ["name_clash"])
-        hx = Hexital("c20", mk_candles(rows[:pre]), inds, timeframe_fill=bool(case.get("fill")))
+        from datetime import timedelta
+
+        extra = {"candles_lifespan": timedelta(seconds=case["lifespan"])} if case.get("lifespan") else {}
+        hx = Hexital("c20", mk_candles(rows[:pre]), inds, timeframe_fill=bool(case.get("fill")), **extra)
         hx.calculate()
         rest = rows[pre:]
         for a, b in split_chunks(len(rest), case.get("chunks", [])):
             hx.append(mk_candles(rest[a:b]))
+            # the accessors are also used between appends (a stale cache would only show at the next comparison)
+            for ind in inds:
+                ind.as_list()
+                ind.reading_count()
+                hx.reading_as_list(ind.name)
+                hx.reading(ind.name)
     except Exception as exc:
         return Result([], False, ["raises"])  # totality / Hexital construction are C09 / C08
     nontrivial = False
